@@ -522,6 +522,12 @@ func runCheck(chk *Check, tier, replay string, keep bool, only string) int {
 		if v.Replays < 5 {
 			// not reproducible identically: infrastructure problem, not a verdict
 			fmt.Fprintf(os.Stderr, "WARN property=%s: counter-example %q reproduced only %d/5 times; not reported as violation\n", chk.ID, v.Sig, v.Replays)
+			{
+				dir := filepath.Join(outDir, "replays", chk.ID, "unstable")
+				_ = os.MkdirAll(dir, 0o755)
+				vb, _ := json.MarshalIndent(v, "", " ")
+				_ = os.WriteFile(filepath.Join(dir, sanitize(v.Sig)+".json"), vb, 0o644)
+			}
 			merged.Notes = append(merged.Notes, fmt.Sprintf("unstable counter-example discarded: %s (%d/5)", v.Sig, v.Replays))
 			merged.Exhaustive = false
 			continue
